@@ -253,17 +253,18 @@ def job_int_element_codec(J, gname):
         e = G._Element(g, v)
         b = e.to_bytes()
         return b, g.bytes_to_element(b)
+    pc = dict(cex=lambda m: dict(group=gname, extra=[]), oracle="pool")
     for r in J.explore(h1):
         v = r.ctx.data["sym"]
         J.reach(r)
         if r.kind != "ret":
-            J.claim(r, "to_bytes/bytes_to_element never raise on members (%s)" % type(r.value).__name__, False)
+            J.claim(r, "to_bytes/bytes_to_element never raise on members (%s)" % type(r.value).__name__, False, **pc)
             continue
         b, back = r.value
-        J.claim(r, "element_size_bytes bytes", z3.And(len(b) == W, g.element_size_bytes == W))
-        J.claim(r, "element encoding is the big-endian value", SymBytes.of(b).value() == v.t)
-        J.claim(r, "bytes_to_element(to_bytes(e)) has the same value", T(back._e) == v.t)
-        J.claim(r, "decoded object is an element of this group", isinstance(back, G._Element) and back._group is g)
+        J.claim(r, "element_size_bytes bytes", z3.And(len(b) == W, g.element_size_bytes == W), **pc)
+        J.claim(r, "element encoding is the big-endian value", SymBytes.of(b).value() == v.t, **pc)
+        J.claim(r, "bytes_to_element(to_bytes(e)) has the same value", T(back._e) == v.t, **pc)
+        J.claim(r, "decoded object is an element of this group", isinstance(back, G._Element) and back._group is g, **pc)
 
     def h2(ctx):        # distinct elements, distinct encodings
         v1 = SymInt(ctx.fresh("e1", 1, p - 1))
@@ -273,9 +274,9 @@ def job_int_element_codec(J, gname):
     for r in J.explore(h2):
         J.reach(r)
         if r.kind != "ret":
-            J.claim(r, "to_bytes never raises on field elements", False)
+            J.claim(r, "to_bytes never raises on field elements", False, **pc)
             continue
-        J.claim(r, "distinct elements have distinct encodings", z3.Not(SymBytes.of(r.value[0]).eq_term(r.value[1])))
+        J.claim(r, "distinct elements have distinct encodings", z3.Not(SymBytes.of(r.value[0]).eq_term(r.value[1])), **pc)
 
     def h3(ctx):        # decode arbitrary W bytes then encode
         b = SymBytes.fresh_chunk("eb", W)
@@ -285,14 +286,15 @@ def job_int_element_codec(J, gname):
     for r in J.explore(h3):
         b = r.ctx.data["sym"]
         J.reach(r)
+        pcb = dict(cex=lambda m, b=b: dict(group=gname, extra=[b.model_bytes(m)]), oracle="pool")
         if r.kind == "exc":
             J.claim(r, "refused only if out of range or not a member (%s)" % type(r.value).__name__,
                     z3.And(isinstance(r.value, ValueError),
-                           z3.Or(b.value() <= 0, b.value() >= p, z3.Not(MEMBER(b.value())))))
+                           z3.Or(b.value() <= 0, b.value() >= p, z3.Not(MEMBER(b.value())))), **pcb)
             continue
         e, bb = r.value
-        J.claim(r, "accepted => in range and member", z3.And(b.value() > 0, b.value() < p, MEMBER(b.value())))
-        J.claim(r, "accepted string re-encodes to itself", SymBytes.of(bb).eq_term(b))
+        J.claim(r, "accepted => in range and member", z3.And(b.value() > 0, b.value() < p, MEMBER(b.value())), **pcb)
+        J.claim(r, "accepted string re-encodes to itself", SymBytes.of(bb).eq_term(b), **pcb)
     Flags.pow_stub = None
 
 
@@ -424,6 +426,7 @@ def oracle_ed_encodepoint(x, y, x2, y2):
     return (False, "ok")
 
 
-ORACLES = dict(sizes=oracle_sizes, n2b=oracle_n2b, int_scalar=oracle_int_scalar, int_scalar_dec=oracle_int_scalar_dec,
+from checks.pools import oracle_pool
+ORACLES = dict(pool=oracle_pool, sizes=oracle_sizes, n2b=oracle_n2b, int_scalar=oracle_int_scalar, int_scalar_dec=oracle_int_scalar_dec,
                ed_scalar=oracle_ed_scalar, ed_scalar_dec=oracle_ed_scalar_dec, ed_scalar_len=oracle_ed_scalar_len,
                ed_encodepoint=oracle_ed_encodepoint)
